@@ -25,7 +25,8 @@ func (yf *yamlFormatter) generate(
 		afterValidators  []validator
 	)
 
-	forceBefore := false
+	// The additional properties are taken from the raw map.
+	forceBefore := hasAdditionalPropertiesField(declType.Type)
 
 	for _, v := range validators {
 		desc := v.desc()
